@@ -11,7 +11,7 @@ MAIN = "cmd/helios"
 ENGINES = [
     dict(name="S", path="engine/shim/vrt", serves_properties=["C02", "C04", "C05", "C06", "C07", "C08", "C09", "C11", "C12", "C13", "C19"],
          kind_free_text="controlled cooperative scheduler + stateless replay DFS with preemption bounding over the real Helios code (sync/atomic/time/go/select rewritten onto shims by vgen)"),
-    dict(name="W", path="engine/shim/wire", serves_properties=["C01", "C14", "C15", "C16", "C17"],
+    dict(name="W", path="engine/shim/wire", serves_properties=["C01", "C14", "C15", "C16", "C17", "C18"],
          kind_free_text="exhaustive enumeration of finite input / configuration / fault-sequence products over real connections: raw-socket HTTP/1.1 client, scripted backends on loopback listeners, the real handler chain behind the real http.Server; differential and reference oracles on the exchanged bytes"),
     dict(name="H", path="engine/shim/vh/hrun.go", serves_properties=["C02", "C04", "C05", "C06", "C07", "C08", "C09", "C11", "C12", "C13", "C19"],
          kind_free_text="explicit-state breadth-first search over event histories of the real objects under a virtual clock, reflective state fingerprint for deduplication, reference-model / monitor oracle on every transition"),
@@ -219,6 +219,17 @@ CHECKS = {
         note="Order and gating are decided in-process on the chain built by the real BuildChain (the property is about call order, not bytes); the binary part builds cmd/helios from the working tree.",
         jobs=[
             dict(name="c17w", part="W", pkg=MAIN, run="TestVerifC17", mode="plain", gomaxprocs=2, needs_binary=True, shards=dict(quick=8, thorough=16), timeout=dict(quick=600, thorough=3000)),
+        ],
+        assumptions=[],
+    ),
+    "C18": dict(
+        level="exploration",
+        engine="W+P",
+        technique="exhaustive enumeration of configuration files assembled from per-section menus (all pairs in quick, a full product in thorough) against a reference validity derived from the documentation, plus every configuration the repository itself presents, loaded by the real LoadConfig, built like main() and started as the real binary",
+        text="(A) The two shipped files and every fenced yaml block of README.md and docs/*.md (fragments merged over a minimal base) are loaded with the real LoadConfig and built the way main() builds (NewLoadBalancer, buildHandler incl. the plugin chain with options typed as YAML types them, adminapi.NewMux, createHTTPServer). (B) Files are assembled from per-section menus (ten sections, 3-11 fragments each: documented valid forms incl. every enum value and 'feature disabled', and one invalid form per documented constraint); quick enumerates all pairs of fragments over an all-valid rest, thorough additionally the full product over <=2 valid and <=2 invalid fragments per section (about 10^6 files); LoadConfig must accept exactly the files whose fragments are all valid, and every accepted file of the pair set is built in-process (no panic, no half-configured start). (P) The real binary is started on both shipped files (only the three ports moved) and must answer a request.",
+        note="The reference validity of a fragment is transcribed from the README, the comments of the sample files and the validator's own error texts; where these disagreed (README basic example vs. the rejections pinned by config tests) the example was repaired. Tutorial yaml blocks that configure a plugin the reader is meant to write are skipped and listed in the evidence.",
+        jobs=[
+            dict(name="c18w", part="W", pkg=MAIN, run="TestVerifC18", mode="plain", gomaxprocs=2, needs_binary=True, shards=dict(quick=8, thorough=16), timeout=dict(quick=600, thorough=3000)),
         ],
         assumptions=[],
     ),
